@@ -136,6 +136,18 @@ def run(ctx):
     record(ctx, "G-cases", trg)
     record(ctx, "T-random", trt)
     report(ctx, mism)
+    # vacuity guard (TLC's -coverage runs out of memory on the nested instances): every kind of event / outcome the
+    # monitor distinguishes must have been produced by the model's cases on the real code
+    seen = set()
+    for ev in cases_of(trg):
+        for e in ev:
+            seen.add((e["k"], (e.get("res") or "")[:6], e.get("what", "")))
+    need = {("pmm", "ok", ""), ("pmm", "oom", ""), ("vmm", "ok", ""), ("vmm", "oom", ""), ("alloc", "ok", ""), ("alloc", "oom", ""),
+            ("free", "ok", ""), ("free", "frame ", ""), ("drain", "oom", ""), ("freeall", "ok", ""), ("map", "ok", "lazy"),
+            ("map", "ok", "own"), ("map", "oom", "lazy"), ("fault", "resume", ""), ("fault", "panic", ""), ("unmap", "ok", ""), ("snap", "", "")}
+    ctx.cov["legs"]["event-kinds"] = {"seen": len(seen), "missing": sorted(need - seen)}
+    if not q and not ctx.violations and need - seen:
+        raise vlib.Broken("vacuity guard: the replayed model cases never produced %s" % sorted(need - seen))
     ctx.note("Dev_EarlyOom: pmm.Init is allowed to fail with up to 3 usable frames left (BootProps.OomSlack)")
     ctx.cov["exhaustive"] = (not q) and not ctx.violations
     ctx.cov["explanation"] = ("exhaustive = every machine and every operation history of the TLC small scope was replayed on the real code "
